@@ -159,7 +159,56 @@ def check_C11(tier, replay=None):
                   ["concretiser and abstraction functions of the harness (DESIGN 5.3)", "TLC"])
 
 
-CHECKS = {"C11": check_C11}
+# ------------------------------------------------------------------------- generic flow
+
+def std_flow(R, mc_module, runs, trace_module, trace_consts, dev_ids, invariants, properties=(), workers=8, per_case_timeout=20,
+             mc_timeout=1500):
+    """(A) model-check each bounded instance and collect its CASE lines, (B) replay them on the real code,
+    (C) let TLC judge the recorded traces.  `runs` = [(name, consts)]"""
+    dev = [d for d in z.dev_set() if d in dev_ids]
+    devs = tla_set(dev)
+    z.build_harness()
+    for name, consts in runs:
+        consts = dict(consts, Dev=devs)
+        c = cfg("MCSpec", consts, invariants=list(invariants), properties=list(properties))
+        res, vocab, cases, _ = mc_run(R, mc_module, c, name, workers=workers, timeout=mc_timeout)
+        base = len(R.cases)
+        for i, cs in enumerate(cases):
+            cs["id"] = base + i + 1
+        R.cases += cases
+        R.vocab = vocab
+        log(f"{name}: {res['distinct']} distinct states, {len(cases)} cases, {res['wall']:.1f}s")
+        if not cases:
+            raise z.ToolError(f"{name} produced no cases")
+        traces, crashed = z.run_harness(vocab, cases, name, per_case_timeout=per_case_timeout)
+        tc = dict(trace_consts(consts) if callable(trace_consts) else trace_consts, Dev=devs)
+        tcfg = cfg("TraceSpec", tc, post="Accepted")
+        viol, known, stale, drift = trace_run(R, trace_module, tcfg, traces, "T_" + name)
+        R.extra["crashed_workers"] = R.extra.get("crashed_workers", 0) + crashed
+        R.drift += len(drift)
+        R.viol += viol
+        R.stale += stale
+        for k in known:
+            for d in (k.get("devs") or ["?"]):
+                R.known.setdefault(d, k)
+    R.samples = R.cases[:2]
+    R.extra["bounds"] = [dict(r[1], model=r[0]) for r in runs]
+
+
+# ------------------------------------------------------------------------- C06
+
+def check_C06(tier, replay=None):
+    R = Result("C06", tier)
+    runs = [("MC_C06_int", {"Slice": '"int"'}), ("MC_C06_str", {"Slice": '"str"'}), ("MC_C06_other", {"Slice": '"other"'})]
+    std_flow(R, "MC_C06", runs, "Trace_C06", {}, ("D20", "D21"), ["Agreement", "Emit"])
+    R.extra["exhaustive"] = True
+    R.extra["anchorings_per_case"] = 3
+    return finish(R, "model_checking",
+                  "every (carrier, wrapper, value point, restriction set) of the abstract space of spec/Facets.tla is one TLC state; each is evaluated on the unmodified helper source under three concrete anchorings (around 0, at the carrier/i32 maximum, at the minimum); distinct by the abstract triple",
+                  ["concretiser of abstract integer points and strings (harness/src/facets.rs)", "TLC", "helpers_content.rs is compiled into the harness unmodified by #[path]"])
+
+
+CHECKS = {"C11": check_C11, "C06": check_C06}
 
 
 def main(argv):
